@@ -227,3 +227,21 @@ PROPS["C17"] = {
          "checks": {"quick": 1500, "thorough": 20000}, "shards": {"quick": 2, "thorough": 8}},
     ],
 }
+
+PROPS["C19"] = {
+    "level": "exploration",
+    "rule": ("Expand: the five request message types with drawn response definitions (varying fixed overhead) and 0-300 bytes of initial data, size directives with offsets in a window around 0, within +-6 of every varint length boundary of the padding field (2^7, 2^14, 2^21), around and below the message's minimum size, far out of range, absent, and directive lists longer than the request list, through expandRequestData; "
+             "oracle: on success proto.Size == limit+offset exactly, all other fields unchanged, old data is a prefix of the new data (or vice versa); on error the target is provably unreachable (brute force over padding lengths) ; never a panic. "
+             "LimitServer/LimitClient: messages whose uncompressed serialized size is limit-1, limit, limit+1 under each of the 6 compressions and 3 protocols (server), and Connect unary/stream responses of those sizes, compressed or not (client), must be accepted up to the limit and rejected with resource_exhausted one byte above it. "
+             "Non-trivial: offsets within a few bytes of a varint boundary or below the minimum size; the limit/limit+1 pair under a non-identity compression."),
+    "assumptions": ["the server receive limit used by the runner is the documented 200 KiB constant",
+                    "under a non-identity compression the padding is compressible (the RPC library also rejects a compressed envelope larger than the limit)"],
+    "units": [
+        {"name": "C19Expand", "pkg": CC, "test": "TestVerifC19Expand", "kind": "rapid",
+         "checks": {"quick": 4000, "thorough": 60000}, "shards": {"quick": 4, "thorough": 16}},
+        {"name": "C19LimitServer", "pkg": RC, "test": "TestVerifC19LimitServer", "kind": "rapid",
+         "checks": {"quick": 1200, "thorough": 12000}, "shards": {"quick": 2, "thorough": 8}},
+        {"name": "C19LimitClient", "pkg": RC, "test": "TestVerifC19LimitClient", "kind": "rapid",
+         "checks": {"quick": 1200, "thorough": 12000}, "shards": {"quick": 2, "thorough": 8}},
+    ],
+}
